@@ -41,6 +41,15 @@ def frame_restore_agreement(fx, ck, rule="R1.frame-restore"):
                 w.setdefault(fl[0][2], sp)
         if len(r) >= 8 and w:
             sites[f.path] = (r, w, f)
+    if len(sites) == 1:
+        # one implementation shared by every pop path (a helper): nothing to disagree with; its callers are the pop paths
+        (p, (r, w, f)), = sites.items()
+        callers = sorted({g.parent if g.closure else g.path for g in fx.fns.values() if not g.derived
+                          for _, t in g.calls() if t[1].get("d") == p})
+        if ck.anchor(len(callers) >= 2, "frame pop paths sharing the single restore helper %s (found %s)" % (p, callers)):
+            for c in callers:
+                ck.instance(rule, "%s (through the shared helper %s)" % (c, p.split("::")[-1]), F.short_span(f.span), ok=True)
+        return
     ck.anchor(len(sites) >= 2, "frame pop sites (found %s)" % sorted(sites))
     allw = set()
     for p, (r, w, f) in sites.items():
